@@ -464,6 +464,16 @@ fn c19(tier: Tier) -> Vec<SeqCfg> {
 }
 
 pub fn seq_cfgs(prop: &str, tier: Tier) -> Vec<SeqCfg> {
+    let mut v = seq_cfgs_inner(prop, tier);
+    if let Some(d) = std::env::var("MC_DEPTH").ok().and_then(|s| s.parse::<usize>().ok()) {
+        for c in v.iter_mut() {
+            c.depth = d;
+        }
+    }
+    v
+}
+
+fn seq_cfgs_inner(prop: &str, tier: Tier) -> Vec<SeqCfg> {
     match prop {
         "C01" => c01(tier),
         "C02" => c02(tier),
